@@ -489,6 +489,70 @@ theorem concatN_independent {n cls : Nat} {ss : List MolO} (hb : ∀ s ∈ ss, B
     obtain ⟨s, hs, ht⟩ := h μ hm
     exact concatN_separate hb _ hx s hs ht
 
+/-! ## sources whose atoms have no live owner
+
+`atom.parent` is a weak reference, so the atoms (and bonds) of a perfectly usable source may name nobody: a temporary
+object built on the same atoms took the link and died, or the source is the shallow copy of an object that was dropped.
+`WF` above asks that atoms and bonds name the source; the statements below drop that: the routes never read the parent of a
+source atom (`deepCopy_reparent`, `concatN_reparent`), so the result is the one of the well-formed twin `reparent src`, and it
+observes as the source does except that the result OWNS its atoms and bonds (`ownedObs`).  *separate* and *independent* never
+needed `WF` (only `Below`), so they hold for such sources as they stand: in particular the result never holds an atom object
+of the source. -/
+
+/-- the observation with every atom and bond naming the observed object as parent -/
+def ownedObs (o : MolObs) : MolObs :=
+  { o with atoms := o.atoms.map (fun a => { a with parentOk := true }),
+           bonds := o.bonds.map (fun b => { b with parentOk := true }) }
+
+theorem observe_reparent (o : MolO) : observe (reparent o) = ownedObs (observe o) := by
+  have hid : (o.atoms.map (ownAtom o.id)).map (·.id) = o.atoms.map (·.id) := ids_ownAtoms _ _
+  simp only [observe, reparent, ownedObs, hid, List.map_map]
+  congr 1
+  · apply List.map_congr_left; intro a _; simp [obsAtom, ownAtom]
+  · apply List.map_congr_left; intro b _; simp [obsBond, ownBond]
+
+theorem wf_reparent {o : MolO} (he : ∀ b ∈ o.bonds, b.a1 ∈ o.atoms.map (·.id) ∧ b.a2 ∈ o.atoms.map (·.id)) :
+    WF (reparent o) := by
+  refine ⟨?_, ?_, ?_⟩
+  · intro a ha
+    obtain ⟨a', _, rfl⟩ := List.mem_map.mp ha
+    rfl
+  · intro b hb
+    obtain ⟨b', _, rfl⟩ := List.mem_map.mp hb
+    rfl
+  · intro b hb
+    obtain ⟨b', hb', rfl⟩ := List.mem_map.mp hb
+    have := he b' hb'
+    simp only [reparent, ids_ownAtoms]
+    exact this
+
+/-- **faithful**, source atoms possibly ownerless: the copy equals the source in every observable field, and owns its atoms. -/
+theorem deepCopy_faithful_ownerless {n : Nat} {src : MolO}
+    (he : ∀ b ∈ src.bonds, b.a1 ∈ src.atoms.map (·.id) ∧ b.a2 ∈ src.atoms.map (·.id)) :
+    observe (deepCopy repaired n src) = ownedObs (observe src) := by
+  rw [← deepCopy_reparent, deepCopy_faithful (wf_reparent he), observe_reparent]
+
+/-- the same for every copy constructor call with overrides, across classes -/
+theorem copyAs_faithful_ownerless {n cls' : Nat} {src : MolO} (ov : Override)
+    (he : ∀ b ∈ src.bonds, b.a1 ∈ src.atoms.map (·.id) ∧ b.a2 ∈ src.atoms.map (·.id)) :
+    observe (copyAs repaired n cls' ov src) = castObs cls' ov (ownedObs (observe src)) := by
+  have h : copyAs repaired n cls' ov (reparent src) = copyAs repaired n cls' ov src := by
+    have hm : molSize (reparent src) = molSize src := by
+      simp only [molSize, reparent, atomsSize_own, bondsSize_own]
+    have hc : (reparent src).cls = src.cls := rfl
+    simp only [copyAs, deepCopy_reparent, hm, hc]
+  rw [← h, copyAs_faithful (wf_reparent he), observe_reparent]
+
+/-- … and for `concatenate` of any number of operands, any of which may have ownerless atoms. -/
+theorem concatN_faithful_ownerless {n cls : Nat} (ss : List MolO)
+    (he : ∀ s ∈ ss, ∀ b ∈ s.bonds, b.a1 ∈ s.atoms.map (·.id) ∧ b.a2 ∈ s.atoms.map (·.id)) :
+    observe (concatN repaired n cls ss) = concatObsN cls (ss.map (fun s => ownedObs (observe s))) := by
+  rw [← concatN_reparent, concatN_faithful (ss.map reparent) (by
+    intro s hs
+    obtain ⟨s', hs', rfl⟩ := List.mem_map.mp hs
+    exact wf_reparent (he s' hs'))]
+  simp only [List.map_map, Function.comp_def, observe_reparent]
+
 /-! ## join -/
 
 theorem map_eraseIdx' {α β} (f : α → β) : ∀ (l : List α) (i : Nat), (l.eraseIdx i).map f = (l.map f).eraseIdx i
@@ -727,6 +791,29 @@ example :
     let c := deepCopy repaired 19 demo
     let μ : Mutation := { target := 21, kind := .setKey 9 9 }
     observe (applyMut μ c) ≠ observe c ∧ applyMut μ demo = demo := by decide
+
+/-! ## ownerless sources: join, instances -/
+
+/-- `join`: the atoms of the product are those of the fragments except the attachment atoms, owned by the product,
+whoever the fragments' atoms named as parent. -/
+theorem join_atoms_faithful_ownerless {n cls : Nat} {s1 s2 : MolO} (i1 i2 : Nat) (sc bf co : List Int) :
+    (observe (join repaired n cls s1 s2 i1 i2 sc bf co)).atoms =
+      (ownedObs (observe s1)).atoms.eraseIdx i1 ++ (ownedObs (observe s2)).atoms.eraseIdx i2 := by
+  have e : ∀ (s : MolO), (ownedObs (observe s)).atoms = s.atoms.map obsAtomT := by
+    intro s; simp [ownedObs, observe, obsAtom, obsAtomT, List.map_map, Function.comp_def]
+  rw [e, e]
+  simp only [observe, join]
+  rw [obs_copyAtoms, List.map_append, map_eraseIdx', map_eraseIdx']
+
+/-- an ownerless source (every atom and bond names nobody): the copy is faithful up to ownership, shares nothing -/
+def orphan : MolO :=
+  { demo with atoms := demo.atoms.map (fun a => { a with parent := none }),
+              bonds := demo.bonds.map (fun b => { b with parent := none }) }
+
+example : observe (deepCopy repaired 19 orphan) = ownedObs (observe orphan) :=
+  deepCopy_faithful_ownerless (by decide)
+example : observe (deepCopy repaired 19 orphan) = observe demo := by decide
+example : sharedIds (concatN repaired 19 5 [orphan, orphan]) orphan = [] := by decide
 
 /-! ## the unrepaired routes (flags on): the witnesses the check finds on the unrepaired tree -/
 
